@@ -142,8 +142,11 @@ def _mirror(
             if dst_dir is not None:
                 # Directory name exists on dst
                 if not dst_dir.is_dir:
-                    # Not a directory, so remove it
+                    # Not a directory, so replace it with one (the walker
+                    # may not scan this directory, e.g. max_depth, in which
+                    # case no later step would create it)
                     dst_fs.remove(_path)
+                    dst_fs.makedir(_path, recreate=True)
             else:
                 # Make the directory in dst
                 dst_fs.makedir(_path, recreate=True)
